@@ -16,6 +16,18 @@
 (*        q = [S, Cm = components(), Y = transform(X), Vf, sv = V and      *)
 (*        singular values of linalg's SVD of X, YZ, YZs]                   *)
 (*                                                                         *)
+(* OFFSET FAMILY.  PCA is invariant under a common per-column offset: the  *)
+(* components, the variances and the centred transform of X + 1 off^T are  *)
+(* those of X.  Field off (p integers, all 0 outside the family) says that *)
+(* the library was fitted on X + off and asked to transform Z + off, with  *)
+(* |off_j| = 2^20..2^30 times a small odd factor, i.e. |mean| / sd up to   *)
+(* 1e9.  The event carries the small integers X, Z, and every clause       *)
+(* (Orthonormal, AffineMap, ZeroMean, Uncorrelated, Ordered, EigenEquation *)
+(* against the exact covariance of X, Captured, stacking) is evaluated on  *)
+(* them unchanged -- so an implementation whose covariance loses digits to *)
+(* the column means (one-pass second moments) is exposed, on both the      *)
+(* m > p and the m <= p path and in both modes.                            *)
+(*                                                                         *)
 (* All verdicts come from the operators of Pca.tla.                        *)
 (***************************************************************************)
 EXTENDS Pca, TLC, Json, IOUtils
@@ -121,12 +133,18 @@ TsvdHit(e, c) == IF c = "OutOfRange" THEN c ELSE IF e.k >= PcNCols(e.X) THEN "Ts
 Clause(e) == IF e.ev = "Pca" THEN PcaClause(e) ELSE IF e.ev = "Tsvd" THEN TsvdClause(e) ELSE "UnknownEvent"
 HitOf(e, c) == IF e.ev = "Pca" THEN PcaHit(e, c) ELSE TsvdHit(e, c)
 HitNames == {"Pca_cov_svd_k", "Pca_cov_svd_full", "Pca_cov_evd_k", "Pca_cov_evd_full", "Pca_corr_k", "Pca_corr_full",
-             "Tsvd", "TsvdReject", "OutOfRange", "Unconstrained"}
+             "Tsvd", "TsvdReject", "OutOfRange", "Unconstrained",
+             \* second counter: membership of the offset family, by code path
+             "Offset_cov_svd", "Offset_cov_evd", "Offset_corr", "NoOffset"}
+OffsetHit(e) ==
+    IF e.ev # "Pca" \/ \A j \in 1..Len(e.off) : e.off[j] = 0 THEN "NoOffset"
+    ELSE IF e.mode = "corr" THEN "Offset_corr"
+    ELSE IF Len(e.X) > PcNCols(e.X) THEN "Offset_cov_svd" ELSE "Offset_cov_evd"
 
 Judge(e, c) ==
     /\ IF c \in {"", "OutOfRange", "Unconstrained"} THEN nbad' = nbad
        ELSE PrintT(<<"BAD", l, e.run, e.ev, c>>) /\ nbad' = nbad + 1
-    /\ hits' = [hits EXCEPT ![HitOf(e, c)] = @ + 1]
+    /\ hits' = [hits EXCEPT ![HitOf(e, c)] = @ + 1, ![OffsetHit(e)] = @ + 1]
 
 Step == /\ l <= Len(Rec)
         /\ Judge(Rec[l], Clause(Rec[l]))
